@@ -30,10 +30,10 @@ TRUSTED = ["modelled not verified: postcard serialisation; tokio-util FramedRead
            "harness message types Raw/Picky (serialise as their bytes; Picky refuses a payload starting with 0xFF) stand for `M`; real operation / "
            "TopicLogSyncMessage / TopicHandshakeMessage values are treated as their postcard payload"]
 RULE = ("quick: every single cut and every pair of cuts of 6 short streams (well-formed, with a refused message, oversized prefix, truncated, "
-        "undeserialisable payload, garbage) + byte-by-byte and random chunkings of ~700 random cases (message lengths around max: max-1, max, "
+        "undeserialisable payload, garbage) + byte-by-byte and random chunkings of ~500 random cases (message lengths around max: max-1, max, "
         "max+1; truncations, prefix/byte mutations, garbage) + real p2panda messages (signed operations, TopicLogSyncMessage, "
         "TopicHandshakeMessage) with boundary maxima + default-maximum and u32 boundary prefixes + 4 GiB messages (size checks only); "
-        "thorough: same families, every triple of cuts for the shortest streams, ~6000 random cases, longer streams. "
+        "thorough: same families, every triple of cuts for the shortest streams, ~5000 random cases, longer streams. "
         "non-trivial = the stream is cut at least once and at least one message is decoded, or an error/refusal is observed")
 
 DEFAULT_MAX = 1024 * 1024 * 128
@@ -171,7 +171,7 @@ def gen(tier, rng):
             for cuts in _all_cuts(n, depth):
                 yield dict(b, cuts=cuts)
     # (b) random raw / picky cases
-    nrand = 700 if quick else 6000
+    nrand = 500 if quick else 5000
     for i in range(nrand):
         kind = "picky" if rng.random() < 0.3 else "raw"
         mx = rng.choice([0, 1, 2, 3, 5, 8, 16, 40, 255, 256, 300, "default", 2 ** 64 - 1]) if rng.random() < 0.8 else rng.randint(0, 70)
